@@ -296,10 +296,8 @@ func genC08(out, tier string, rng *rand.Rand) {
 		programs = append(programs, []SegPlan{{Prog: []Call{create}, Crash: p1}, {Prog: []Call{create, w("a", "1")}}, {Prog: []Call{rd}}})
 		tags = append(tags, "kill-in-create")
 	}
-	for _, p1 := range []string{"disk.clear.closed", "disk.db.removed"} {
-		programs = append(programs, []SegPlan{{Prog: []Call{create, w("a", "1"), dropAll}, Crash: p1}, {Prog: []Call{rd, w("b", "2"), dropAll}, Crash: p1}, {Prog: []Call{rd, w("c", "3")}}})
-		tags = append(tags, "kill-in-clear")
-	}
+	programs = append(programs, []SegPlan{{Prog: []Call{create, w("a", "1"), dropAll}}, {Prog: []Call{rd, w("b", "2"), dropAll}}, {Prog: []Call{rd, w("c", "3")}}})
+	tags = append(tags, "clear-restart")
 	for _, p1 := range []string{"disk.meta.tmp", "disk.meta.renamed"} {
 		programs = append(programs, []SegPlan{{Prog: []Call{create, w("a", "1"), dropFam}, Crash: p1}, {Prog: []Call{rd, w("b", "2")}}})
 		tags = append(tags, "kill-in-drop-family")
@@ -317,7 +315,7 @@ func genC08(out, tier string, rng *rand.Rand) {
 				case 1:
 					c, pts = create, []string{"disk.meta.tmp", "disk.meta.renamed", "disk.db.removed"}
 				case 2:
-					c, pts = dropAll, []string{"disk.clear.closed", "disk.db.removed"}
+					c, pts = dropAll, []string{""} // Clear is one atomic batch: no crash point inside
 				case 3:
 					c, pts = dropFam, []string{"disk.meta.tmp", "disk.meta.renamed"}
 				default:
@@ -339,5 +337,5 @@ func genC08(out, tier string, rng *rand.Rand) {
 		js, _ := json.Marshal(c)
 		sink.AddPre(c.pseudo(), c.coq(), js, len(c.Segs) > 1)
 	}
-	sink.Close(fmt.Sprintf("programs of admin and data requests (create / delete / re-create tables, schema changes incl. dropped families, DropRowRange all and by prefix, row writes, read-modify-writes, forced GC) in %d segments of about %d requests on the on-disk engine; after EVERY request and at every instrumented crash point inside SetTableMeta (temp written / renamed), table create (leftover directory cleared / directory removed), table delete (definition removed, directory still there) and Clear (closed / removed) a point-in-time copy of the directory is taken and a second server is started on it and asked for every candidate table (GetTable + full ReadRows); between segments the server is stopped and restarted on the directory, or (tags kill-*, random-kill) KILLED at a crash point inside the segment's last request: the next segment's server starts on the image taken at that point and the program carries on, including a second kill on a server that itself started on a crash image (repeated crash-restart cycles); compared with the model's restart of the corresponding image and judged by the durability / crash-atomicity oracle; plus directed scenarios for each crash point; non-trivial = at least one restart", nseg, length), false)
+	sink.Close(fmt.Sprintf("programs of admin and data requests (create / delete / re-create tables, schema changes incl. dropped families, DropRowRange all and by prefix, row writes, read-modify-writes, forced GC) in %d segments of about %d requests on the on-disk engine; after EVERY request and at every instrumented crash point inside SetTableMeta (temp written / renamed), table create (leftover directory cleared / directory removed), table delete (definition removed, directory still there) a point-in-time copy of the directory is taken and a second server is started on it and asked for every candidate table (GetTable + full ReadRows); between segments the server is stopped and restarted on the directory, or (tags kill-*, random-kill) KILLED at a crash point inside the segment's last request: the next segment's server starts on the image taken at that point and the program carries on, including a second kill on a server that itself started on a crash image (repeated crash-restart cycles); compared with the model's restart of the corresponding image and judged by the durability / crash-atomicity oracle; plus directed scenarios for each crash point; non-trivial = at least one restart", nseg, length), false)
 }
